@@ -10,7 +10,7 @@ SPEC = {
         'regtest, descriptor wallet with 8 fixed ranged descriptors (4 output types x external/internal), histories <= 24 ops',
     ],
     'stages': [
-        gen('vh_c44', 'c44_balances', 192, 3600, min_cases_quick=64,
+        gen('vh_c44', 'c44_balances', 192, 3600, min_cases_quick=48, max_seconds_quick=900, max_seconds_thorough=7200,
             floors={'reorg': 0.25, 'reorg-disconnects-wallet-tx': 0.12, 'chain-conflicted-wallet-tx': 0.2, 'maturity-crossed': 0.15, 'untrusted-pending>0': 0.3,
                     'trusted-unconfirmed>0': 0.3, 'double-spend-confirmed': 0.15, 'rbf-replacement': 0.1, 'invalidate': 0.1, 'wallet-created-send': 0.1,
                     'attached-by-rescan': 0.2},
